@@ -254,7 +254,7 @@ def const_of(fn, o):
     return None
 
 
-def expr_key(fn, o, depth=0):
+def expr_key(fn, o, depth=0, copyprop=False):
     """structural key of a side-effect-free value expression (loads are keyed by their address expression; two equal keys
     denote the same value provided no store to that address lies between the two evaluations)"""
     k = o.get("k")
@@ -270,22 +270,28 @@ def expr_key(fn, o, depth=0):
         return ("?", id(o))
     i = fn.insts[o["id"]]
     if i.op in ("zext", "sext", "trunc", "bitcast"):
-        return expr_key(fn, i["a"], depth + 1)
+        return expr_key(fn, i["a"], depth + 1, copyprop)
     if i.op == "alloca":
         return ("alloca", i.id)
     if i.op == "load":
-        return ("load", expr_key(fn, i["ptr"], depth + 1))
+        if copyprop and i["ptr"].get("k") == "inst":
+            a = fn.insts[i["ptr"]["id"]]
+            if a.op == "alloca":
+                st = [s for s in fn.all_insts() if s.op == "store" and s["ptr"].get("k") == "inst" and s["ptr"]["id"] == a.id]
+                if len(st) == 1 and st[0]["val"].get("k") != "arg":
+                    return expr_key(fn, st[0]["val"], depth + 1, copyprop)
+        return ("load", expr_key(fn, i["ptr"], depth + 1, copyprop))
     if i.op == "getelementptr":
-        return ("gep", expr_key(fn, i["base"], depth + 1), i["off"], tuple((x["scale"], expr_key(fn, x["v"], depth + 1)) for x in i["idx"]))
+        return ("gep", expr_key(fn, i["base"], depth + 1, copyprop), i["off"], tuple((x["scale"], expr_key(fn, x["v"], depth + 1, copyprop)) for x in i["idx"]))
     if i.op in ("add", "sub", "mul", "and", "or", "xor", "shl", "lshr"):
-        return (i.op, expr_key(fn, i["a"], depth + 1), expr_key(fn, i["b"], depth + 1))
+        return (i.op, expr_key(fn, i["a"], depth + 1, copyprop), expr_key(fn, i["b"], depth + 1, copyprop))
     if i.op == "call":
         return ("call", i.id)
     return ("?", i.id)
 
 
 def key_mentions(key, pred):
-    if pred(key):
+    if len(key) >= 2 and isinstance(key[0], str) and pred(key):
         return True
     if isinstance(key, tuple):
         return any(key_mentions(k, pred) for k in key if isinstance(k, tuple))
